@@ -367,7 +367,7 @@ func runC03(r *rt.Runner) {
 		}
 	}
 
-	nRand := r.N(200000, 3000000)
+	nRand := r.N(400000, 4000000)
 	for k := 0; k < nRand; k++ {
 		r.Case("generated", func(c *rt.C) {
 			g := &g3{rng: c.Rand(), feat: map[string]bool{}, maxD: 2 + c.Rand().IntN(2), multiDict: true}
